@@ -35,11 +35,50 @@ CORPUS_PB = {"module": "ConcQueueMC", "cfg": mc_cfg([1, 2], "SPutBack", defects=
 CORPUS_EO = {"module": "ConcQueueMC", "cfg": mc_cfg([1, 2, 3], "SEmptyOrder", defects=["empty_order"]), "defect": "empty_order", "scenario": "nq,pa|eq"}
 
 
+# ---- generated scenarios: the harness explores the very scenario sets the interleaving model is checked on (ConcQueueMC.Scen2 / Scen3)
+CQ_PRODUCER = ["nq", "don,nq,dof"]
+CQ_CONSUMER = ["pa", "po,po", "tk,pa", "cl", "pi,pa", "pk,tk", "pu,pa"]
+CQ_WAITER = ["w,pa", "wf,pa"]
+CQ_OBSERVER = ["eq", "eq,eq"]
+CQ_P1 = CQ_PRODUCER + ["nq,pa", "nq,nq,po", "nq,nq", "don,nq,nq,dof"]
+CQ_ANY2 = CQ_CONSUMER + CQ_WAITER + CQ_OBSERVER + CQ_PRODUCER
+CQ_ANY3 = CQ_CONSUMER + CQ_WAITER + CQ_OBSERVER
+
+
+def cq_class(s):
+    """which property's run takes a generated scenario: observers -> C11, waiting / DisableQueueNotify -> C07, the rest -> C06"""
+    ops = set(op for th in s.split("|") for op in th.split(","))
+    if ops & {"eq", "wf"}:
+        return "C11"
+    if ops & {"w", "don"}:
+        return "C07"
+    return "C06"
+
+
+def cq_generated(pid, tier, seed, have):
+    import random
+    quick = tier == "quick"
+    s2 = [a + "|" + b for a in CQ_P1 for b in CQ_ANY2]
+    s3 = [a + "|" + b + "|" + c for a in CQ_P1 for b in CQ_ANY2 for c in CQ_ANY3]
+    s2 = [s for s in s2 if cq_class(s) == pid and s not in have]
+    s3 = [s for s in s3 if cq_class(s) == pid and s not in have]
+    rnd = random.Random(seed * 7919 + int(pid[1:]))
+    rnd.shuffle(s2)
+    rnd.shuffle(s3)
+    if quick:
+        s2, s3 = s2[:10], s3[:8]
+    else:
+        s3 = s3[:120]
+    return ([{"scenario": s, "max": 1500 if quick else 30000, "rand": 100 if quick else 1500, "generated": True} for s in s2]
+            + [{"scenario": s, "bound": 1, "max": 1500 if quick else 30000, "rand": 150 if quick else 2000, "generated": True} for s in s3])
+
+
 def c06(tier, seed):
     quick = tier == "quick"
     sc2 = ["nq,nq|pa", "nq,nq|po,po", "nq,nq|tk,pa", "nq,nq,nq|pi,pa", "nq,nq,nq|pu,pa", "nq,nq,nq,nq|pu,pa", "nq,nq|cl,pa", "nq,nq|pk,tk", "nq,pa|nq,po", "nq,nq|pa,pa"]
     sc3 = ["nq,nq|nq|pa,pa", "nq,nq|po,po|pa", "nq,nq,nq|pi|pu", "nq,nq|tk|pa", "nq,nq|cl|po,po", "nq|nq,pa|pi,pa"]
     scen = [{"scenario": s} for s in sc2] + [{"scenario": s, "max": 2500 if quick else 80000} for s in sc3]
+    scen += cq_generated("C06", tier, seed, set(x["scenario"] for x in scen))
     models = [{"module": "ConcQueueMC", "tag": "2threads", "cfg": mc_cfg([1, 2], "Scen2")}]
     if not quick:
         models.append({"module": "ConcQueueMC", "tag": "3threads", "cfg": mc_cfg([1, 2, 3], "Scen3"), "heap": "16g"})
@@ -64,6 +103,7 @@ def c07(tier, seed):
     sc3b = ["w,pa|don,dof|nq", "w,pa|don,don,dof,dof|nq,nq", "w,pa|don,dof|don,nq,dof"]
     scen = ([{"scenario": s} for s in sc] + [{"scenario": s, "max": 2500 if quick else 80000} for s in sc3]
             + [{"scenario": s, "bound": 2, "max": 12000 if quick else 200000, "rand": 1500 if quick else 20000} for s in sc3b])
+    scen += cq_generated("C07", tier, seed, set(x["scenario"] for x in scen))
     models = [{"module": "ConcQueueMC", "tag": "wakeup", "cfg": mc_cfg([1, 2], "W2")},
               {"module": "ConcQueueMC", "tag": "2threads", "cfg": mc_cfg([1, 2], "Scen2")},
               # liveness under weak fairness (the statement's "blocked for ever"): also excludes livelock
@@ -89,6 +129,7 @@ def c11(tier, seed):
     sc += ["nq,nq,po,eq|po", "nq,pa,eq|nq,pa", "nq,nq,po,wf|po"]
     sc3 += ["nq,nq|po,eq|po", "nq,nq,nq|po|pi,eq"]
     scen = [{"scenario": s, "bound": 3} for s in sc] + [{"scenario": s, "bound": 2, "max": 6000 if quick else 150000} for s in sc3]
+    scen += cq_generated("C11", tier, seed, set(x["scenario"] for x in scen))
     models = [{"module": "ConcQueueMC", "tag": "2threads", "cfg": mc_cfg([1, 2], "Scen2")},
               {"module": "ConcQueueMC", "tag": "waitfor-2threads", "cfg": mc_cfg([1, 2], "WF2")}]
     if not quick:
